@@ -9,6 +9,8 @@ MODES = {"curtsies": ev.Keynames.CURTSIES, "curses": ev.Keynames.CURSES, "bytes"
 B = [bytes([i]) for i in range(256)]
 
 TABLE_KEYS = sorted(set(ev.CURTSIES_NAMES) | set(ev.CURSES_NAMES))
+D43SET = frozenset([0xc0, 0xc1] + list(range(0xf5, 0xfe)))     # one-byte keys the code mistakes for UTF-8 lead bytes
+LEADS = range(0xc2, 0xf5)                                        # RFC 3629 lead bytes
 
 
 def hx(bs):
@@ -51,8 +53,9 @@ def impl_getkey(seq, enc, mode, full):
 
 class FindFailure(Exception):
     """find_key raised: `at` = the bytes handed to get_key when it raised (None: the loop's own ValueError)"""
-    def __init__(self, exc, at, full):
+    def __init__(self, exc, at, full, cur=None):
         self.exc, self.at, self.full = exc, at, full
+        self.cur = list(at) if at is not None else cur      # the bytes collected when it failed
 
 
 def find_key(buf, enc, mode):
@@ -69,7 +72,7 @@ def find_key(buf, enc, mode):
         if e is not None:
             return e, bytes(cur), bytes(un)
     if cur:
-        raise FindFailure(ValueError("Couldn't identify key sequence"), None, True)
+        raise FindFailure(ValueError("Couldn't identify key sequence"), None, True, cur=list(cur))
     return None
 
 
@@ -130,14 +133,14 @@ class _FdStream:
         return self.fd
 
 
-def burst_through_input(buf, enc, paste_threshold):
+def burst_through_input(buf, enc, paste_threshold, mode="curtsies"):
     """One arrival of `buf` on a pipe read by the REAL Input object (its own select / os.read(READ_SIZE) / paste
     loop / find_key): -> the keys that come back, in order (events of PasteEvents flattened), a final
     'RAISED <kind>' if send() raised."""
     import os
     r, w = os.pipe()
     kw = {} if paste_threshold == "default" else {"paste_threshold": paste_threshold}
-    inp = cinput.Input(in_stream=_FdStream(r), sigint_event=False, **kw)
+    inp = cinput.Input(in_stream=_FdStream(r), sigint_event=False, keynames=MODES[mode], **kw)
     saved = cinput.getpreferredencoding
     cinput.getpreferredencoding = lambda: ENCS[enc]
     out = []
